@@ -128,3 +128,19 @@ func genDiff(tier, replay string) int {
 	fmt.Printf("total differing %d of %d\n", total, n)
 	return 0
 }
+
+func init() { register("DEBUGC14", debugC14) }
+
+// Development aid: DEBUG_TYPE=ios DEBUG_SEED=n [VERIF_REPO=..] ./check DEBUGC14 quick
+func debugC14(tier, replay string) int {
+	env := run.Setup("DEBUGC14", tier)
+	defer env.Cleanup()
+	env.BuildRepo(false)
+	var seed int64
+	fmt.Sscanf(os.Getenv("DEBUG_SEED"), "%d", &seed)
+	c := genC14(os.Getenv("DEBUG_TYPE"), seed)
+	r := runC14(env, c)
+	fmt.Printf("MODE %s EDITS %v\n--- DEVICE\n%s\n--- TARGET\n%s\n--- SCRIPT\n%s\n--- clause=%q what=%q inconclusive=%q steps=%d universe=%d info=%s\n",
+		c.Mode, c.Edits, c.Device, c.Files["router"], r.Script, r.Clause, r.What, r.Inconclusive, r.Steps, r.Universe, r.Info)
+	return 0
+}
